@@ -20,8 +20,8 @@ COMPONENTS = {"real": ["litex.soc.interconnect.stream.*", "litex.gen.sim.core.Si
               "stub": ["producer/consumer/controller agents", "clock source (SeededClocks)", "tracer shim"]}
 CHUNK = 8
 
-QUICK = 40
-THOROUGH = 1500
+QUICK = 250
+THOROUGH = 6000
 
 
 def plan(tier):
